@@ -57,11 +57,11 @@ Section Pull.
     destruct (gen ca + 1 <=? gen ca) eqn:E; [lia | reflexivity].
   Qed.
 
-  Theorem pull_result : forall A B, linv A B ->
-    let A' := fst (transfer mkdig true B A) in
+  Theorem pull_result_pol : forall pol, policy_ok pol -> forall A B, linv A B ->
+    let A' := fst (transfer mkdig (Some pol) B A) in
     linv A' B /\ (forall cb, cur B = Some cb -> contains (ptree A') cb = true).
   Proof.
-    intros A B L. cbn zeta. unfold transfer, offer.
+    intros pol POK A B L. cbn zeta. unfold transfer, offer.
     destruct (cur B) as [cb|] eqn:CBc; [|cbn [fst]; split; [exact L | intros; discriminate]].
     pose proof (li_A _ _ _ L) as TA. pose proof (li_B _ _ _ L) as TB.
     pose proof (proj1 TA) as WA. pose proof (proj1 TB) as WB.
@@ -144,7 +144,7 @@ Section Pull.
       { intros i b [H | H]; [|apply (li_boA _ _ _ L); exact H]. inversion H; subst.
         split; [discriminate|]. exists (Some ca). right. reflexivity. }
       change (RT :: ptree A) with ([RT] ++ ptree A).
-      destruct (local_wins false ca false (wid (hd_error (cb :: rest)))) eqn:LW.
+      destruct (pol false ca lbody false (wid (hd_error (cb :: rest))) bB) as [| |mb] eqn:LW.
       + (* local wins: the local body is cloned as a child of the remote leaf *)
         cbn [local_wins_rewrite hd_error]. fold lbody. set (new := mkid (Some cb) lbody).
         assert (NL : lbody <> b_tomb).
@@ -187,5 +187,38 @@ Section Pull.
                    EXT T1 HNW GH NI1 KN1 KB (or_intror Z) BB1 BO1).
         * intros cb' E. inversion E; subst cb'. cbn [ptree].
           apply (ps_contains_cb mkdig A B cb [RT] (cb :: n) (hd_error known) HNW).
+      + (* merge: the merged body becomes a child of the remote leaf *)
+        cbn [hd_error]. set (new := mkid (Some cb) mb).
+        assert (NL : mb <> b_tomb) by (eapply POK; eauto).
+        assert (GH' : ghist (new :: cb :: n) (hd_error known)).
+        { apply ghist_split. rewrite <- app_comm_cons, <- Ehist. apply (ghist_ext mkdig (cb :: rest) mb G). }
+        assert (NI' : forall x, In x (new :: cb :: n) -> contains ([RT] ++ ptree A) x = false).
+        { intros x [<- | Ix]; [|apply NI1; exact Ix].
+          apply not_true_is_false. intros C. apply contains_in in C. apply in_map_iff in C. destruct C as (q & Eq & Iq).
+          pose proof (gen_parent mkdig mkdig_inj _ q _ _ T1 Iq Eq) as Pq.
+          destruct (proj1 T1) as (_ & _ & PP). destruct (PP q cb Iq Pq) as [Cc _].
+          rewrite (NI1 cb (or_introl eq_refl)) in Cc. discriminate. }
+        rewrite Ehist, app_comm_cons.
+        rewrite (shape_finish A [RT] (new :: cb :: n) known mb ((T, b_empty) :: pbody A) new (cb :: n) eq_refl T1 GH' NI' KN1).
+        cbn [fst hd_error wid].
+        assert (HNW : exists pre n0, new :: cb :: n = pre ++ cb :: n0 /\
+                        (pre = [] \/ exists lb, lb <> b_tomb /\ pre = [mkid (Some cb) lb]) /\
+                        (forall x, In x (cb :: n0) -> In x (history (ptree B) cb))).
+        { exists [new], n. split; [reflexivity|]. split; auto. right. exists mb. auto. }
+        assert (BB1 : mb <> b_tomb /\ exists par, wid (hd_error (new :: cb :: n)) = mkid par mb).
+        { split; auto. exists (Some cb). reflexivity. }
+        split.
+        * exact (ps_linv mkdig mkdig_inj A B cb [RT] (new :: cb :: n) (hd_error known) mb ((T, b_empty) :: pbody A) L CBc Ca
+                   EXT T1 HNW GH' NI' KN1 KB (or_intror Z) BB1 BO1).
+        * intros cb' E. inversion E; subst cb'. cbn [ptree].
+          apply (ps_contains_cb mkdig A B cb [RT] (new :: cb :: n) (hd_error known) HNW).
   Qed.
+
+  Lemma default_policy_ok : policy_ok default_policy.
+  Proof. intros ldel l lb rdel r rb mb H. unfold default_policy in H. destruct (local_wins _ _ _ _); discriminate. Qed.
+
+  Theorem pull_result : forall A B, linv A B ->
+    let A' := fst (transfer mkdig (Some default_policy) B A) in
+    linv A' B /\ (forall cb, cur B = Some cb -> contains (ptree A') cb = true).
+  Proof. exact (pull_result_pol default_policy default_policy_ok). Qed.
 End Pull.
